@@ -479,7 +479,7 @@ pub fn eval_case(prop: &str, case: &Case, oracles: &[Oracle], st: &mut Stats, de
       }
       Oracle::Unsub => {
         for (ai, a) in case.acts.iter().enumerate() {
-          if let Act::Unsub(root) | Act::UsingDrop(root) = a {
+          if let Act::Unsub(root) | Act::UsingDrop(root) | Act::UsingDropUnwinding(root) = a {
             let base = rec_id(*root);
             if let Some(e) = real.events.iter().find(|e| e.step > ai && e.rec >= base && e.rec < base + 100) {
               st.add_finding(
@@ -499,7 +499,7 @@ pub fn eval_case(prop: &str, case: &Case, oracles: &[Oracle], st: &mut Stats, de
         for root in 0..n_roots {
           let mut ended = false;
           for (step, a) in case.acts.iter().enumerate() {
-            if *a == Act::Unsub(root) || *a == Act::UsingDrop(root) {
+            if *a == Act::Unsub(root) || *a == Act::UsingDrop(root) || *a == Act::UsingDropUnwinding(root) {
               ended = true;
             }
             if real.events.iter().any(|e| e.step == step && e.rec == rec_id(root) && e.ev.is_terminal()) {
